@@ -414,6 +414,10 @@ def r4_species(ctx):
                 and norm(vals.generators[0].iter) == f"{ROW}.A.values()" and isinstance(vals.elt, ast.Subscript) \
                 and norm(vals.elt.value) == norm(vals.generators[0].target) and isinstance(vals.elt.slice, ast.Constant):
             col = vals.elt.slice.value
+        elif isinstance(vals, (ast.ListComp, ast.GeneratorExp)) and len(vals.generators) == 1 and not vals.generators[0].ifs \
+                and norm(vals.generators[0].iter) == f"{ROW}.A.values()" and isinstance(vals.generators[0].target, ast.Tuple) and isinstance(vals.elt, ast.Name):
+            names = [norm(x) for x in vals.generators[0].target.elts]
+            col = names.index(vals.elt.id) if vals.elt.id in names else None       # [NA for M, NA in row.A.values()]
         k_ok = k_src in (f"list({ROW}.A.keys())", f"list({ROW}.A)") or (
             isinstance(ks, ast.Call) and dotted_name(ks.func) == "list" and len(ks.args) == 1 and isinstance(ks.args[0], (ast.GeneratorExp, ast.ListComp))
             and len(ks.args[0].generators) == 1 and not ks.args[0].generators[0].ifs and norm(ks.args[0].elt) == norm(ks.args[0].generators[0].target)
